@@ -71,11 +71,11 @@ Qed.
 
 (* the recorded position after a wrapper that presented the recorded stable buffer *)
 Lemma wrapper_epos_ok (s : sstate) (ko : kout CS) :
-  is_init (ko_k ko) = false -> k_appliedSI (ko_k ko) = true ->
+  is_init (ko_k ko) = false -> k_appliedSI (ko_k ko) = true -> a_null (s_a s) = false ->
   wrapper_epos CS KeepNow s ko =
     (if (ko_consumed ko <? 0)%Z then a_pos (s_a s) else Z.to_N (Z.of_N (a_pos (s_a s)) + ko_consumed ko)).
 Proof.
-  intros Hi Ha. unfold wrapper_epos. cbv zeta. rewrite Hi, Ha. cbn [negb andb].
+  intros Hi Ha Hn. unfold wrapper_epos. cbv zeta. rewrite Hi, Ha, Hn. cbn [negb andb].
   destruct (Z.ltb_spec (ko_consumed ko) 0) as [Hneg|Hpos].
   - destruct (N.ltb_spec (Z.to_N (Z.of_N (a_pos (s_a s)) + ko_consumed ko)) (a_pos (s_a s))); [reflexivity|lia].
   - destruct (N.ltb_spec (Z.to_N (Z.of_N (a_pos (s_a s)) + ko_consumed ko)) (a_pos (s_a s))); [lia|reflexivity].
@@ -104,7 +104,7 @@ Proof.
     + destruct (ko_ret (kstep P fc (a_k (s_a s)) [] cap DirFlush)) as [r2|] eqn:Ek; [|rewrite a_kfail_ret; discriminate].
       cbn [ao_ret ao_a]. intros _. apply SOK_intro. cbn [s_a s_epos a_k a_pos a_null].
       destruct (keep_caller_mode (k_held (a_k (s_a s))) (kstep P fc (a_k (s_a s)) [] cap DirFlush)) as [Em1 Em2].
-      rewrite Em1, Em2. intros Hi Ha _. rewrite (wrapper_epos_ok s _ Hi Ha).
+      rewrite Em1, Em2. intros Hi Ha Hn. rewrite (wrapper_epos_ok s _ Hi Ha Hn).
       assert (Ek0 : ko_ret (kstep P fc (a_k (s_a s)) (tk 0 (dr (a_pos (s_a s)) X)) cap DirFlush) = Some r2) by (rewrite tk_0; exact Ek).
       destruct (AInv_kstep CS cs_begin compress_chunk P X (s_a s) em dones cs0 chunks fc 0 cap DirFlush r2 A Hmb Ek0) as (_ & Hb & _).
       rewrite tk_0 in Hb. rewrite lenN_nil in Hb. pose proof (ai_le _ _ _ _ _ _ _ _ _ _ A) as Hle.
@@ -119,7 +119,7 @@ Proof.
       destruct (ko_ret (kstep P fc (a_k (s_a s)) inp cap DirEnd)) as [r2|] eqn:Ek; [|rewrite a_kfail_ret; discriminate].
       cbn [ao_ret ao_a]. intros _. apply SOK_intro. cbn [s_a s_epos a_k a_pos a_null].
       destruct (keep_caller_mode (k_held (a_k (s_a s))) (kstep P fc (a_k (s_a s)) inp cap DirEnd)) as [Em1 Em2].
-      rewrite Em1, Em2. intros Hi Ha _. rewrite (wrapper_epos_ok s _ Hi Ha). reflexivity.
+      rewrite Em1, Em2. intros Hi Ha Hn. rewrite (wrapper_epos_ok s _ Hi Ha Hn). reflexivity.
     + destruct (ko_ret (kstep P fc (k_set_held (a_k (s_a s)) []) [] cap DirEnd)) as [r2|] eqn:Ek; [|rewrite a_kfail_ret; discriminate].
       cbn [ao_ret ao_a]. intros _. apply SOK_intro. cbn [s_a a_null]. discriminate.
 Qed.
